@@ -23,14 +23,14 @@ func init() {
 		Assume:    []string{"a big step runs one thread alone between two named stopping points", "values are unique per Set so a notification identifies its incarnation"},
 		Quick: []Scenario{
 			mk("m1", 8, "12", 60), mk("m1-ttl", 16, "9", 60), mk("m2-3c", 16, "9", 60), mk("m1-pool", 8, "12", 60), mk("m1-pool-ttl", 8, "9", 60), mk("m1-pool-reuse", 4, "11", 60),
-			icb("del-vs-evict", 8, "2", 60), icb("del-vs-expire", 8, "2", 60), icb("del-vs-evict-pool", 8, "2", 60), icb("update-vs-evict", 8, "2", 60), icb("update-vs-expire", 8, "2", 60),
+			icb("del-vs-evict", 8, "2", 60), icb("del-vs-expire", 8, "2", 60), icb("del-vs-evict-pool", 8, "2", 60), icb("update-vs-evict", 8, "2", 60), icb("update-vs-expire", 8, "2", 60), icb("extend-vs-expire", 6, "2", 60),
 			hyb("HY1-delete-vs-worker", 4, "2", 60), hyb("HY1p-delete-vs-worker-pool", 6, "2", 60), hyb("HY2p-delete-set-vs-worker-pool", 6, "2", 60), hyb("HY3-failed-secondary-delete", 4, "2", 60),
 		},
 		Thorough: []Scenario{
 			{Name: "C05/bfs-m1-3clients", Build: sched, Pkg: "internal", Test: "TestVerif_C05", Params: "cfg=m1,depth=13,clients=3,ops=2", Shards: 16, BudgetS: 600},
 			{Name: "C05/bfs-m1-ttl-3clients", Build: sched, Pkg: "internal", Test: "TestVerif_C05", Params: "cfg=m1-ttl,depth=10,clients=3,ops=2", Shards: 16, BudgetS: 600},
 			mk("m1", 16, "14", 600), mk("m1-ttl", 16, "11", 600), mk("m2-3c", 16, "11", 600), mk("m1-pool", 16, "14", 600), mk("m1-pool-ttl", 16, "11", 600), mk("m1-pool-reuse", 8, "13", 600),
-			icb("del-vs-evict", 16, "3", 900), icb("del-vs-expire", 16, "3", 900), icb("del-vs-evict-pool", 16, "3", 900), icb("update-vs-evict", 16, "3", 900), icb("update-vs-expire", 16, "3", 900),
+			icb("del-vs-evict", 16, "3", 900), icb("del-vs-expire", 16, "3", 900), icb("del-vs-evict-pool", 16, "3", 900), icb("update-vs-evict", 16, "3", 900), icb("update-vs-expire", 16, "3", 900), icb("extend-vs-expire", 16, "3", 900),
 		},
 	})
 }
